@@ -4,6 +4,7 @@ from __future__ import annotations
 import ast
 
 from ..cfg import CFG
+from ..core import copy_ast as _copy_ast
 from .. import logic
 from ..core import (AnalysisError, DefRef, NotConst, Ref, call_name, calls_in, dotted, enclosing_conditions, expand_aliases, expr_conditions, func_params, get_kw, norm, single_assign_aliases,
                     qualname_of, walk_no_nested)
@@ -170,9 +171,9 @@ def run(ctx):
             class _A(ast.NodeTransformer):
                 def visit_Attribute(self, n):
                     if norm(n) in sstores and len(sstores[norm(n)]) == 1 and isinstance(n.ctx, ast.Load):
-                        return full(_copy.deepcopy(sstores[norm(n)][0]), depth + 1)
+                        return full(_copy_ast(sstores[norm(n)][0]), depth + 1)
                     return self.generic_visit(n)
-            e = _A().visit(_copy.deepcopy(e))
+            e = _A().visit(_copy_ast(e))
         return e
 
     want = norm(full(ast.parse("self.schema", mode="eval").body))
